@@ -346,10 +346,10 @@ class Writer(BaseValidator):
         assert len(row) == len(self.cid.field_formats)
         result = []
         for field_index, field_value in enumerate(row):
-            field_value_length = len(field_value)
             _, fixed_field_length = self._field_names_and_lengths[field_index]
-            if field_value_length < fixed_field_length:
-                field_value += " " * (fixed_field_length - field_value_length)
+            # Anything but a string is left for the validation to reject.
+            if isinstance(field_value, str) and (len(field_value) < fixed_field_length):
+                field_value += " " * (fixed_field_length - len(field_value))
             result.append(field_value)
         return result
 
